@@ -129,15 +129,16 @@ func directSingle(atoms []string) func(a int, b string) (bool, bool) {
 
 var c01Atoms4 = []string{"MIT", "ISC", "LicenseRef-a", "DocumentRef-d:LicenseRef-a"}
 var c01Atoms3 = []string{"MIT", "LicenseRef-a", "ISC"}
+var c01Atoms2 = []string{"MIT", "LicenseRef-a"}
 
 var c01Rich = []string{
 	"GPL-2.0", "GPL-2.0+", "GPL-3.0-only", "GPL-2.0-or-later WITH Bison-exception-2.2", "GPL-2.0 WITH Bison-exception-2.2",
-	"Apache-2.0-or-later", "Apache-1.1", "mit", "MIT-only", "LicenseRef-a", "DocumentRef-d:LicenseRef-a", "LGPL-2.1-only",
+	"Apache-2.0-or-later", "Apache-1.1", "mit", "MIT-only", "LicenseRef-a", "DocumentRef-d:LicenseRef-a", "LGPL-2.1-only", "LicenseRef-A",
 }
 
 var c01Entries = []string{
 	"GPL-1.0+", "GPL-3.0", "GPL-2.0-only", "Apache-2.0", "MIT", "LicenseRef-a", "Zlib", " mit ", "(MIT)",
-	"GPL-2.0-or-later WITH Bison-exception-2.2", "DocumentRef-d:LicenseRef-a", "LGPL-2.1+", "Apache-1.0+", "GPL-3.0-or-later WITH Bison-exception-2.2",
+	"GPL-2.0-or-later WITH Bison-exception-2.2", "DocumentRef-d:LicenseRef-a", "LGPL-2.1+", "Apache-1.0+", "GPL-3.0-or-later WITH Bison-exception-2.2", "LicenseRef-A",
 }
 
 func init() {
@@ -158,7 +159,7 @@ func init() {
 		Title:    "Satisfies = Boolean truth of the expression under the allowed list",
 		Explorer: "E1 bounded-exhaustive tree x labelling x allowed-list enumeration vs R-bool over the implementation's single-term verdicts",
 		Rule: "S1: every binary tree with <= N leaves, every AND/OR labelling, every leaf labelling over 4 atoms (2 licences, 2 references), rendered fully parenthesised and with minimal parentheses, x every non-empty subset of the atoms as allowed list; " +
-			"S2: every tree <= 3 leaves over 12 rich terms (+, -only, -or-later, WITH, refs, case) x every allowed list up to a length bound over 14 overlapping entries (with repetition, re-spellings); " +
+			"S2: every tree <= 3 leaves over 13 rich terms (+, -only, -or-later, WITH, refs, case) x every allowed list up to a length bound over 15 overlapping entries (with repetition, re-spellings); " +
 			"state = (expression text, allowed list), transition = one Satisfies call; non-trivial = the tree mentions >= 2 distinct terms and the truth assignment restricted to them is neither all-false nor all-true",
 		Assumptions: []string{
 			"truth of a leaf = exists allowed entry b with Satisfies(term,[b]) (the implementation's own single-term verdict, as the property states); the matching relation itself is C02's subject",
@@ -189,9 +190,10 @@ func c01Run(c *Ctx) {
 		maxN  int
 		fromN int
 	}
-	sweeps := []s1{{c01Atoms4, 4, 1}}
+	// wide and shallow, then narrow and deep (an aliasing defect of the old expansion needed >= 5 leaves)
+	sweeps := []s1{{c01Atoms4, 4, 1}, {c01Atoms2, 6, 5}}
 	if thorough {
-		sweeps = []s1{{c01Atoms4, 5, 1}, {c01Atoms3, 6, 6}}
+		sweeps = []s1{{c01Atoms4, 5, 1}, {c01Atoms3, 6, 6}, {c01Atoms2, 7, 7}}
 	}
 	var bnd []map[string]any
 	var ti int64
